@@ -516,11 +516,14 @@ fn pread(rng: &mut Rng, ctx: &mut Ctx) {
             let mut pj: serde_json::Value = serde_json::from_slice(&es2[0].1).unwrap();
             pj["version"] = serde_json::json!([v.0, v.1, v.2]);
             es2[0].1 = serde_json::to_vec(&pj).unwrap();
+            let variant = (k / 2) % 4; // 0: as written; 1: no frames.arrow entry; 2: skip_frames; 3: both
+            if variant & 1 == 1 { es2.retain(|e| e.0 != "frames.arrow"); }
             let a2 = tar_build(&es2);
-            let res = std::panic::catch_unwind(|| peppi::io::peppi::read(Cursor::new(&a2), None).map(|_| ()).map_err(|e| e.to_string()));
+            let o = peppi::io::peppi::de::Opts { skip_frames: variant & 2 == 2 };
+            let res = std::panic::catch_unwind(|| peppi::io::peppi::read(Cursor::new(&a2), Some(&o)).map(|_| ()).map_err(|e| e.to_string()));
             let exp_reject = v < (2, 0, 0);
             match res { Ok(Ok(())) => { c.impl_out = "ok".into(); if exp_reject { c.fail("C18", format!("archive of format version {:?} < 2.0.0 accepted", v)); } } Ok(Err(e)) => { c.impl_out = "err".into(); if !exp_reject { c.fail("C18", format!("archive of format version {:?} >= 2.0.0 rejected: {}", v, e)); } } Err(_) => { c.impl_out = "panic".into(); c.fail("C18", "reader panicked on a format version"); } }
-            c.line = format!("pvgate {} {} {}", v.0, v.1, v.2); c.tags.push(format!("gate-reject{}", exp_reject as u8));
+            c.line = format!("pvgate {} {} {}", v.0, v.1, v.2); c.tags.push(format!("gate-reject{}", exp_reject as u8)); c.tags.push(format!("gate-variant{}", variant));
         }
         ctx.push(c);
     }
@@ -543,14 +546,16 @@ fn fixtures(ctx: &mut Ctx) {
     names.sort();
     for p in names {
         let b = match std::fs::read(&p) { Ok(b) => b, Err(_) => continue };
-        if b.len() > 600_000 && !ctx.thorough { continue; }
+        if b.len() > 1_200_000 && !ctx.thorough { continue; }
         let name = p.file_name().unwrap().to_string_lossy().to_string();
         let (l, g) = read_line(&b, false, true);
-        let mut c = Case::new(read_cmd(false, true, &b), l.clone()); c.tags = vec![format!("fixture:{}", name)];
+        // files above 200 kB go through the implementation-level oracles only: the model keeps columns as lists and is quadratic in the frame count
+        let big = b.len() > 200_000;
+        let mut c = Case::new(if big { format!("readx {} {}", name, b.len()) } else { read_cmd(false, true, &b) }, if big { l.chars().take(400).collect() } else { l.clone() }); c.tags = vec![format!("fixture:{}", name)];
         if let Some(g) = &g { check_row_view(g, &mut c); let xx = format!("xxh3:{:016x}", xxhash_rust::xxh3::xxh3_64(&b)); if g.hash.as_deref() != Some(xx.as_str()) { c.fail("C11", format!("{}: hash {:?} != {}", name, g.hash, xx)); } }
         ctx.push(c);
-        if let Some(g) = &g { if g.start.slippi.version <= slippi::MAX_SUPPORTED_VERSION { let mut c = Case::new(format!("rt {}", hex(&b)), String::new()); c.tags = vec![format!("fixture-rt:{}", name)];
-            match write_slp(g) { Ok(y) => { c.impl_out = format!("ok {}", hex(&y)); check_c17(g, &y, &mut c); } Err(e) => { c.impl_out = e.clone(); c.fail("C17", format!("{}: accepted game cannot be written: {}", name, e)); } }
+        if let Some(g) = &g { if g.start.slippi.version <= slippi::MAX_SUPPORTED_VERSION { let mut c = Case::new(if big { format!("rtx {} {}", name, b.len()) } else { format!("rt {}", hex(&b)) }, String::new()); c.tags = vec![format!("fixture-rt:{}", name)];
+            match write_slp(g) { Ok(y) => { c.impl_out = if big { format!("ok len={} same={}", y.len(), y == b) } else { format!("ok {}", hex(&y)) }; check_c17(g, &y, &mut c); if y != b && name != "unknown_event.slp" && name != "corrupt.slp" { c.fail("C01", format!("{}: write(read(x)) differs from x", name)); } } Err(e) => { c.impl_out = e.clone(); c.fail("C17", format!("{}: accepted game cannot be written: {}", name, e)); } }
             ctx.push(c); } }
     }
 }
